@@ -26,13 +26,13 @@ def tblInsert {α : Type} (t : List (PName × α)) (k : PName) (v : α) : List (
 
 /-- `Name::parse` -/
 def parseName (kvs : List (Bytes × Json)) (enclosing : Option Bytes) : Option PName :=
-  match objStr kvs (bs "name") with
+  match objStr kvs b!"name" with
   | none => none
-  | some nm => PName.make nm ((objStr kvs (bs "namespace")).orElse (fun _ => enclosing))
+  | some nm => PName.make nm ((objStr kvs b!"namespace").orElse (fun _ => enclosing))
 
 /-- `MapHelper::aliases`: an array of strings, all of them -/
 def jsonAliases (kvs : List (Bytes × Json)) : Option (List Bytes) :=
-  match objGet kvs (bs "aliases") with
+  match objGet kvs b!"aliases" with
   | some (.arr xs) => xs.mapM Json.asStr?
   | _ => none
 
@@ -45,12 +45,12 @@ def fixAliases (al : Option (List Bytes)) (ns : Option Bytes) : Option (Option (
 /-- `get_custom_attributes` -/
 def customAttrs (kvs : List (Bytes × Json)) (excluded : List Bytes) : Attrs :=
   kvs.filter (fun kv =>
-    !([bs "type", bs "name", bs "namespace", bs "doc", bs "aliases", bs "logicalType"].contains kv.1) &&
+    !([b!"type", b!"name", b!"namespace", b!"doc", b!"aliases", b!"logicalType"].contains kv.1) &&
     !(excluded.contains kv.1))
 
 /-- `RecordField::get_field_custom_attributes` -/
 def fieldAttrs (kvs : List (Bytes × Json)) : Attrs :=
-  kvs.filter (fun kv => !([bs "type", bs "name", bs "doc", bs "default", bs "aliases"].contains kv.1))
+  kvs.filter (fun kv => !([b!"type", b!"name", b!"doc", b!"default", b!"aliases"].contains kv.1))
 
 /-- `register_resolving_schema` -/
 def registerResolving (st : PSt) (name : PName) (aliases : Option (List PName)) : PSt :=
@@ -69,7 +69,7 @@ def registerParsed (st : PSt) (name : PName) (schema : PSchema) (aliases : Optio
 
 /-- `get_already_seen_schema` -/
 def alreadySeen (st : PSt) (kvs : List (Bytes × Json)) (enclosing : Option Bytes) : Option PSchema :=
-  match objGet kvs (bs "type") with
+  match objGet kvs b!"type" with
   | some (.str t) =>
     (match PName.make t enclosing with
      | some n => (tblGet st.resolving n).orElse (fun _ => tblGet st.parsed n)
@@ -92,45 +92,59 @@ def unionNew : List PSchema → List PName → List BaseKind → Option Unit
 def decimalInt (kvs : List (Bytes × Json)) (key : Bytes) : Option Nat :=
   match objGet kvs key with
   | some (.int n) => if 0 ≤ n then some n.toNat else none
-  | none => if key == bs "scale" then some 0 else none
+  | none => if key == b!"scale" then some 0 else none
   | some _ => none
 
 /-- `parse_precision_and_scale` -/
 def precisionScale (kvs : List (Bytes × Json)) : Option (Nat × Nat) :=
-  match decimalInt kvs (bs "precision"), decimalInt kvs (bs "scale") with
+  match decimalInt kvs b!"precision", decimalInt kvs b!"scale" with
   | some p, some sc => if p < 1 then none else if p < sc then none else some (p, sc)
   | _, _ => none
 
-/-- the conversion of a parsed native type to the logical type named `t`; `none` = the parser
-returns an error (only `inner.try_into()` can, and it cannot fail after the kind check) -/
-def applyLogical (t : Bytes) (kvs : List (Bytes × Json)) (inner : PSchema) : PSchema :=
-  if t == bs "decimal" then
-    (match inner with
-     | .bytes => (match precisionScale kvs with | some (p, sc) => .decimal p sc none | none => inner)
-     | .fixed f => (match precisionScale kvs with | some (p, sc) => .decimal p sc (some f) | none => inner)
-     | _ => inner)
-  else if t == bs "big-decimal" then (match inner with | .bytes => .bigDecimal | _ => inner)
-  else if t == bs "uuid" then
-    (match inner with
-     | .string => .uuidString
-     | .bytes => .uuidBytes
-     | .fixed f => if f.size == 16 then .uuidFixed f else inner
-     | _ => inner)
-  else if t == bs "date" then (match inner with | .int => .date | _ => inner)
-  else if t == bs "time-millis" then (match inner with | .int => .timeMillis | _ => inner)
-  else if t == bs "time-micros" then (match inner with | .long => .timeMicros | _ => inner)
-  else if t == bs "timestamp-millis" then (match inner with | .long => .tsMillis | _ => inner)
-  else if t == bs "timestamp-micros" then (match inner with | .long => .tsMicros | _ => inner)
-  else if t == bs "timestamp-nanos" then (match inner with | .long => .tsNanos | _ => inner)
-  else if t == bs "local-timestamp-millis" then (match inner with | .long => .ltsMillis | _ => inner)
-  else if t == bs "local-timestamp-micros" then (match inner with | .long => .ltsMicros | _ => inner)
-  else if t == bs "local-timestamp-nanos" then (match inner with | .long => .ltsNanos | _ => inner)
-  else if t == bs "duration" then (match inner with | .fixed f => if f.size == 12 then .duration f else inner | _ => inner)
-  else inner
+inductive LogicalTag
+  | decimal | bigDecimal | uuid | date | timeMillis | timeMicros | tsMillis | tsMicros | tsNanos
+  | ltsMillis | ltsMicros | ltsNanos | duration
+  deriving Repr, DecidableEq
 
-def knownLogical : List String :=
-  ["decimal", "big-decimal", "uuid", "date", "time-millis", "time-micros", "timestamp-millis", "timestamp-micros",
-   "timestamp-nanos", "local-timestamp-millis", "local-timestamp-micros", "local-timestamp-nanos", "duration"]
+def logicalTable : List (Bytes × LogicalTag) :=
+  [(b!"decimal", .decimal), (b!"big-decimal", .bigDecimal), (b!"uuid", .uuid), (b!"date", .date),
+   (b!"time-millis", .timeMillis), (b!"time-micros", .timeMicros), (b!"timestamp-millis", .tsMillis),
+   (b!"timestamp-micros", .tsMicros), (b!"timestamp-nanos", .tsNanos), (b!"local-timestamp-millis", .ltsMillis),
+   (b!"local-timestamp-micros", .ltsMicros), (b!"local-timestamp-nanos", .ltsNanos), (b!"duration", .duration)]
+
+/-- the logical type names the crate knows -/
+def logicalOf (t : Bytes) : Option LogicalTag := (logicalTable.find? (fun e => e.1 == t)).map Prod.snd
+
+/-- the conversion of a parsed native type to a logical type (the closures passed to
+`try_convert_to_logical_type`): an unsupported base type, or an invalid decimal, keeps the native type -/
+def applyLogical (tag : LogicalTag) (kvs : List (Bytes × Json)) (inner : PSchema) : PSchema :=
+  match tag, inner with
+  | .decimal, .bytes => (match precisionScale kvs with | some (p, sc) => .decimal p sc none | none => inner)
+  | .decimal, .fixed f => (match precisionScale kvs with | some (p, sc) => .decimal p sc (some f) | none => inner)
+  | .bigDecimal, .bytes => .bigDecimal
+  | .uuid, .string => .uuidString
+  | .uuid, .bytes => .uuidBytes
+  | .uuid, .fixed f => if f.size == 16 then .uuidFixed f else inner
+  | .date, .int => .date
+  | .timeMillis, .int => .timeMillis
+  | .timeMicros, .long => .timeMicros
+  | .tsMillis, .long => .tsMillis
+  | .tsMicros, .long => .tsMicros
+  | .tsNanos, .long => .tsNanos
+  | .ltsMillis, .long => .ltsMillis
+  | .ltsMicros, .long => .ltsMicros
+  | .ltsNanos, .long => .ltsNanos
+  | .duration, .fixed f => if f.size == 12 then .duration f else inner
+  | _, _ => inner
+
+inductive ComplexTag
+  | record | enum | array | map | fixed
+  deriving Repr, DecidableEq
+
+def complexTable : List (Bytes × ComplexTag) :=
+  [(b!"record", .record), (b!"enum", .enum), (b!"array", .array), (b!"map", .map), (b!"fixed", .fixed)]
+
+def complexOf (t : Bytes) : Option ComplexTag := (complexTable.find? (fun e => e.1 == t)).map Prod.snd
 
 /-- the lookup table of a record: `FieldNameDuplicate` when a field's name is already a key (a
 previous field's name or alias) -/
@@ -148,6 +162,12 @@ def parseSeq (f : PSt → Json → Option (PSchema × PSt)) : PSt → List Json 
       | none => none
       | some (ss, st'') => some (s :: ss, st'')
 
+/-- no default, or one the check accepts -/
+def defaultAccepted (dflt : List (PName × PSchema) → PSchema → Json → Bool) (parsed : List (PName × PSchema))
+    (schema : PSchema) : Option Json → Bool
+  | some d => dflt parsed schema d
+  | none => true
+
 /-- the fields of a record: only JSON objects are looked at (`filter_map(as_object)`) -/
 def parseFieldsWith (parseTy : PSt → Json → Option (PSchema × PSt))
     (dflt : List (PName × PSchema) → PSchema → Json → Bool) :
@@ -156,22 +176,22 @@ def parseFieldsWith (parseTy : PSt → Json → Option (PSchema × PSt))
   | st, j :: rest =>
     match j with
     | .obj kvs =>
-      (match objStr kvs (bs "name") with
+      (match objStr kvs b!"name" with
        | none => none
        | some nm =>
          if !isIdent nm then none
-         else match objGet kvs (bs "type") with
+         else match objGet kvs b!"type" with
            | none => none
            | some ty => match parseTy st ty with
              | none => none
              | some (schema, st') =>
-               let default := objGet kvs (bs "default")
-               if !(match default with | some d => dflt st'.parsed schema d | none => true) then none
+               let default := objGet kvs b!"default"
+               if !defaultAccepted dflt st'.parsed schema default then none
                else
-                 let aliases := match objGet kvs (bs "aliases") with
+                 let aliases := match objGet kvs b!"aliases" with
                    | some (.arr xs) => xs.filterMap Json.asStr?
                    | _ => []
-                 let hdr : FieldHdr := { name := nm, doc := objStr kvs (bs "doc"), aliases := aliases, default := default,
+                 let hdr : FieldHdr := { name := nm, doc := objStr kvs b!"doc", aliases := aliases, default := default,
                                          attrs := fieldAttrs kvs }
                  match parseFieldsWith parseTy dflt st' rest with
                  | none => none
@@ -180,175 +200,209 @@ def parseFieldsWith (parseTy : PSt → Json → Option (PSchema × PSt))
 
 /-- `get_schema_type_name` -/
 def schemaTypeName (name : PName) (value : Json) : Option PName :=
-  match value.get? (bs "type") with
-  | some (.obj inner) => (match objStr inner (bs "name") with
+  match value.get? b!"type" with
+  | some (.obj inner) => (match objStr inner b!"name" with
     | some tn => PName.make tn none
     | none => some name)
   | _ => some name
 
+abbrev ParseFn := PSt → Json → Option Bytes → Option (PSchema × PSt)
+abbrev DfltFn := List (PName × PSchema) → PSchema → Json → Bool
+
+/-- what `fetch_schema_ref` hands back for a freshly parsed input schema (`get_schema_ref`) -/
+def schemaRefOf : PSchema → PSchema
+  | .record n _ _ _ _ => .ref n
+  | .enum n _ _ _ _ _ => .ref n
+  | .fixed f => .ref f.name
+  | other => other
+
+def primTable : List (Bytes × PSchema) :=
+  [(b!"null", .null), (b!"boolean", .boolean), (b!"int", .int), (b!"long", .long), (b!"double", .double),
+   (b!"float", .float), (b!"bytes", .bytes), (b!"string", .string)]
+
+/-- the primitive type names -/
+def primOf (t : Bytes) : Option PSchema := (primTable.find? (fun e => e.1 == t)).map Prod.snd
+
+/-- `parse_known_schema` / `fetch_schema_ref` -/
+def parseKnown (parse : ParseFn) (st : PSt) (t : Bytes) (ns : Option Bytes) : Option (PSchema × PSt) :=
+  match primOf t with
+  | some p => some (p, st)
+  | none =>
+  match PName.make t ns with
+    | none => none
+    | some fq =>
+      if (tblGet st.parsed fq).isSome then some (.ref fq, st)
+      else match tblGet st.resolving fq with
+        | some r => some (r, st)
+        | none =>
+          if fq.name == b!"record" || fq.name == b!"enum" || fq.name == b!"fixed" then none
+          else match tblGet st.inputs fq with
+            | none => none
+            | some value =>
+              match parse { st with inputs := tblRemove st.inputs fq } value none with
+              | none => none
+              | some (parsed, st2) =>
+                match schemaTypeName fq value with
+                | none => none
+                | some key => some (schemaRefOf parsed, { st2 with parsed := tblInsert st2.parsed key parsed })
+
+/-- `parse_fixed` -/
+def parseFixed (st : PSt) (kvs : List (Bytes × Json)) (ns : Option Bytes) : Option (PSchema × PSt) :=
+  let sizeOpt := objGet kvs b!"size"
+  match (if sizeOpt.isNone then alreadySeen st kvs ns else none) with
+  | some seen => some (seen, st)
+  | none =>
+    match sizeOpt with
+    | some (.int n) =>
+      if n < 0 then none
+      else match parseName kvs ns with
+        | none => none
+        | some name => match fixAliases (jsonAliases kvs) name.ns with
+          | none => none
+          | some aliases =>
+            let f : FixedP := { name := name, aliases := aliases, doc := objStr kvs b!"doc", size := n.toNat,
+                                attrs := customAttrs kvs [b!"size"] }
+            some (.fixed f, registerParsed st name (.fixed f) aliases)
+    | _ => none
+
+/-- `parse_record` -/
+def parseRecord (parse : ParseFn) (dflt : DfltFn) (st : PSt) (kvs : List (Bytes × Json)) (ns : Option Bytes) :
+    Option (PSchema × PSt) :=
+  let fieldsOpt := objGet kvs b!"fields"
+  match (if fieldsOpt.isNone then alreadySeen st kvs ns else none) with
+  | some seen => some (seen, st)
+  | none =>
+    match parseName kvs ns with
+    | none => none
+    | some name => match fixAliases (jsonAliases kvs) name.ns with
+      | none => none
+      | some aliases =>
+        match fieldsOpt with
+        | some (.arr fjs) =>
+          (match parseFieldsWith (fun st j => parse st j name.ns) dflt (registerResolving st name aliases) fjs with
+           | none => none
+           | some (fields, st2) =>
+             if !fieldLookupOk fields [] then none
+             else
+               let schema : PSchema := .record name aliases (objStr kvs b!"doc") fields (customAttrs kvs [b!"fields"])
+               some (schema, registerParsed st2 name schema aliases))
+        | _ => none
+
+/-- the `default` of an enum: absent, or a string that is one of the symbols -/
+def enumDefault (kvs : List (Bytes × Json)) (symbols : List Bytes) : Option (Option Bytes) :=
+  match objGet kvs b!"default" with
+  | none => some none
+  | some (.str d) => if symbols.contains d then some (some d) else none
+  | some _ => none
+
+/-- `parse_enum` -/
+def parseEnum (st : PSt) (kvs : List (Bytes × Json)) (ns : Option Bytes) : Option (PSchema × PSt) :=
+  let symbolsOpt := objGet kvs b!"symbols"
+  match (if symbolsOpt.isNone then alreadySeen st kvs ns else none) with
+  | some seen => some (seen, st)
+  | none =>
+    match parseName kvs ns with
+    | none => none
+    | some name => match fixAliases (jsonAliases kvs) name.ns with
+      | none => none
+      | some aliases =>
+        match symbolsOpt with
+        | some (.arr xs) =>
+          (match xs.mapM Json.asStr? with
+           | none => none
+           | some symbols =>
+             if !(symbols.all isIdent) || !symbols.Nodup then none
+             else match enumDefault kvs symbols with
+               | none => none
+               | some default =>
+                 let schema : PSchema := .enum name aliases (objStr kvs b!"doc") symbols default
+                   (customAttrs kvs [b!"symbols", b!"default"])
+                 some (schema, registerParsed st name schema aliases))
+        | _ => none
+
+/-- `parse_array` -/
+def parseArray (parse : ParseFn) (st : PSt) (kvs : List (Bytes × Json)) (ns : Option Bytes) : Option (PSchema × PSt) :=
+  match objGet kvs b!"items" with
+  | none => none
+  | some items => match parse st items ns with
+    | none => none
+    | some (it, st') => some (.array it (customAttrs kvs [b!"items"]), st')
+
+/-- `parse_map` -/
+def parseMap (parse : ParseFn) (st : PSt) (kvs : List (Bytes × Json)) (ns : Option Bytes) : Option (PSchema × PSt) :=
+  match objGet kvs b!"values" with
+  | none => none
+  | some values => match parse st values ns with
+    | none => none
+    | some (it, st') => some (.map it (customAttrs kvs [b!"values"]), st')
+
+/-- `parse_union` -/
+def parseUnion (parse : ParseFn) (st : PSt) (items : List Json) (ns : Option Bytes) : Option (PSchema × PSt) :=
+  match parseSeq (fun st j => parse st j ns) st items with
+  | none => none
+  | some (schemas, st') => match unionNew schemas [] [] with
+    | none => none
+    | some _ => some (.union schemas, st')
+
+/-- the five complex kinds, each by its own parser -/
+def parseComplexKind (parse : ParseFn) (dflt : DfltFn) (tag : ComplexTag) (st : PSt) (kvs : List (Bytes × Json))
+    (ns : Option Bytes) : Option (PSchema × PSt) :=
+  match tag with
+  | .fixed => parseFixed st kvs ns
+  | .record => parseRecord parse dflt st kvs ns
+  | .enum => parseEnum st kvs ns
+  | .array => parseArray parse st kvs ns
+  | .map => parseMap parse st kvs ns
+
+/-- `parse_as_native_complex` -/
+def parseNative (parse : ParseFn) (dflt : DfltFn) (st : PSt) (kvs : List (Bytes × Json)) (ns : Option Bytes) :
+    Option (PSchema × PSt) :=
+  match objGet kvs b!"type" with
+  | some (.str t) =>
+    (match complexOf t with
+     | some tag => parseComplexKind parse dflt tag st kvs ns
+     | none => parse st (.str t) ns)
+  | some v => parse st v ns
+  | none => none
+
+/-- the dispatch on `type` at the end of `parse_complex` -/
+def parseByType (parse : ParseFn) (dflt : DfltFn) (st : PSt) (kvs : List (Bytes × Json)) (ns : Option Bytes) :
+    Option (PSchema × PSt) :=
+  match objGet kvs b!"type" with
+  | some (.str t) =>
+    (match complexOf t with
+     | some tag => parseComplexKind parse dflt tag st kvs ns
+     | none => parseKnown parse st t ns)
+  | some (.obj data) => parse st (.obj data) ns
+  | some (.arr variants) => parse st (.arr variants) ns
+  | _ => none
+
+/-- `parse_complex` -/
+def parseComplex (parse : ParseFn) (dflt : DfltFn) (st : PSt) (kvs : List (Bytes × Json)) (ns : Option Bytes) :
+    Option (PSchema × PSt) :=
+  match objGet kvs b!"logicalType" with
+  | some (.str t) =>
+    (match logicalOf t with
+     | some tag =>
+       (match parseNative parse dflt st kvs ns with
+        | none => none
+        | some (inner, st') => some (applyLogical tag kvs inner, st'))
+     | none => parseByType parse dflt st kvs ns)
+  | some _ => none
+  | none => parseByType parse dflt st kvs ns
+
 /-- `Parser::parse` -/
-def parseJ (dflt : List (PName × PSchema) → PSchema → Json → Bool) :
-    Nat → PSt → Json → Option Bytes → Option (PSchema × PSt)
+def parseJ (dflt : DfltFn) : Nat → ParseFn
   | 0, _, _, _ => none
   | fuel+1, st, j, ns =>
-    let parse := parseJ dflt fuel
-    -- `parse_known_schema` / `fetch_schema_ref`
-    let known (st : PSt) (t : Bytes) : Option (PSchema × PSt) :=
-      if t == bs "null" then some (.null, st) else if t == bs "boolean" then some (.boolean, st)
-      else if t == bs "int" then some (.int, st) else if t == bs "long" then some (.long, st)
-      else if t == bs "double" then some (.double, st) else if t == bs "float" then some (.float, st)
-      else if t == bs "bytes" then some (.bytes, st) else if t == bs "string" then some (.string, st)
-      else match PName.make t ns with
-        | none => none
-        | some fq =>
-          if (tblGet st.parsed fq).isSome then some (.ref fq, st)
-          else match tblGet st.resolving fq with
-            | some r => some (r, st)
-            | none =>
-              if fq.name == bs "record" || fq.name == bs "enum" || fq.name == bs "fixed" then none
-              else match tblGet st.inputs fq with
-                | none => none
-                | some value =>
-                  let st1 := { st with inputs := tblRemove st.inputs fq }
-                  match parse st1 value none with
-                  | none => none
-                  | some (parsed, st2) =>
-                    match schemaTypeName fq value with
-                    | none => none
-                    | some key =>
-                      let st3 := { st2 with parsed := tblInsert st2.parsed key parsed }
-                      let r : PSchema := match parsed with
-                        | .record n _ _ _ _ | .enum n _ _ _ _ _ => .ref n
-                        | .fixed f => .ref f.name
-                        | other => other
-                      some (r, st3)
     match j with
-    | .str t => known st t
-    | .arr items =>
-      -- `parse_union`
-      (match parseSeq (fun st j => parse st j ns) st items with
-       | none => none
-       | some (schemas, st') => match unionNew schemas [] [] with
-         | none => none
-         | some _ => some (.union schemas, st'))
-    | .obj kvs =>
-      -- `parse_complex`
-      let parseFixed (st : PSt) : Option (PSchema × PSt) :=
-        let sizeOpt := objGet kvs (bs "size")
-        match (if sizeOpt.isNone then alreadySeen st kvs ns else none) with
-        | some seen => some (seen, st)
-        | none =>
-          match sizeOpt with
-          | some (.int n) =>
-            if n < 0 then none
-            else match parseName kvs ns with
-              | none => none
-              | some name => match fixAliases (jsonAliases kvs) name.ns with
-                | none => none
-                | some aliases =>
-                  let f : FixedP := { name := name, aliases := aliases, doc := objStr kvs (bs "doc"), size := n.toNat,
-                                      attrs := customAttrs kvs [bs "size"] }
-                  some (.fixed f, registerParsed st name (.fixed f) aliases)
-          | _ => none
-      let parseRecord (st : PSt) : Option (PSchema × PSt) :=
-        let fieldsOpt := objGet kvs (bs "fields")
-        match (if fieldsOpt.isNone then alreadySeen st kvs ns else none) with
-        | some seen => some (seen, st)
-        | none =>
-          match parseName kvs ns with
-          | none => none
-          | some name => match fixAliases (jsonAliases kvs) name.ns with
-            | none => none
-            | some aliases =>
-              let st1 := registerResolving st name aliases
-              match fieldsOpt with
-              | some (.arr fjs) =>
-                (match parseFieldsWith (fun st j => parse st j name.ns) dflt st1 fjs with
-                 | none => none
-                 | some (fields, st2) =>
-                   if !fieldLookupOk fields [] then none
-                   else
-                     let schema : PSchema := .record name aliases (objStr kvs (bs "doc")) fields (customAttrs kvs [bs "fields"])
-                     some (schema, registerParsed st2 name schema aliases))
-              | _ => none
-      let parseEnum (st : PSt) : Option (PSchema × PSt) :=
-        let symbolsOpt := objGet kvs (bs "symbols")
-        match (if symbolsOpt.isNone then alreadySeen st kvs ns else none) with
-        | some seen => some (seen, st)
-        | none =>
-          match parseName kvs ns with
-          | none => none
-          | some name => match fixAliases (jsonAliases kvs) name.ns with
-            | none => none
-            | some aliases =>
-              match symbolsOpt with
-              | some (.arr xs) =>
-                (match xs.mapM Json.asStr? with
-                 | none => none
-                 | some symbols =>
-                   if !(symbols.all isIdent) || !symbols.Nodup then none
-                   else
-                     let defaultJ := objGet kvs (bs "default")
-                     match (match defaultJ with
-                            | none => some none
-                            | some (.str d) => if symbols.contains d then some (some d) else none
-                            | some _ => none) with
-                     | none => none
-                     | some default =>
-                       let schema : PSchema := .enum name aliases (objStr kvs (bs "doc")) symbols default
-                         (customAttrs kvs [bs "symbols", bs "default"])
-                       some (schema, registerParsed st name schema aliases))
-              | _ => none
-      let parseArray (st : PSt) : Option (PSchema × PSt) :=
-        match objGet kvs (bs "items") with
-        | none => none
-        | some items => match parse st items ns with
-          | none => none
-          | some (it, st') => some (.array it (customAttrs kvs [bs "items"]), st')
-      let parseMap (st : PSt) : Option (PSchema × PSt) :=
-        match objGet kvs (bs "values") with
-        | none => none
-        | some values => match parse st values ns with
-          | none => none
-          | some (it, st') => some (.map it (customAttrs kvs [bs "values"]), st')
-      -- `parse_as_native_complex`
-      let native (st : PSt) : Option (PSchema × PSt) :=
-        match objGet kvs (bs "type") with
-        | some (.str t) =>
-          if t == bs "fixed" then parseFixed st
-          else if t == bs "record" then parseRecord st
-          else if t == bs "enum" then parseEnum st
-          else if t == bs "array" then parseArray st
-          else if t == bs "map" then parseMap st
-          else parse st (.str t) ns
-        | some v => parse st v ns
-        | none => none
-      -- the dispatch on `type` at the end of `parse_complex`
-      let byType (st : PSt) : Option (PSchema × PSt) :=
-        match objGet kvs (bs "type") with
-        | some (.str t) =>
-          if t == bs "record" then parseRecord st
-          else if t == bs "enum" then parseEnum st
-          else if t == bs "array" then parseArray st
-          else if t == bs "map" then parseMap st
-          else if t == bs "fixed" then parseFixed st
-          else known st t
-        | some (.obj data) => parse st (.obj data) ns
-        | some (.arr variants) => parse st (.arr variants) ns
-        | _ => none
-      match objGet kvs (bs "logicalType") with
-      | some (.str t) =>
-        if (knownLogical.map bs).contains t then
-          (match native st with
-           | none => none
-           | some (inner, st') => some (applyLogical t kvs inner, st'))
-        else byType st
-      | some _ => none
-      | none => byType st
+    | .str t => parseKnown (parseJ dflt fuel) st t ns
+    | .arr items => parseUnion (parseJ dflt fuel) st items ns
+    | .obj kvs => parseComplex (parseJ dflt fuel) dflt st kvs ns
     | _ => none
 
 /-- `Schema::parse_str` / `Schema::parse` on one JSON value -/
-def parseTop (dflt : List (PName × PSchema) → PSchema → Json → Bool) (fuel : Nat) (j : Json) : Option PSchema :=
+def parseTop (dflt : DfltFn) (fuel : Nat) (j : Json) : Option PSchema :=
   (parseJ dflt fuel {} j none).map Prod.fst
 
 end Avro
